@@ -18,6 +18,7 @@ from concurrent.futures import ThreadPoolExecutor
 from lib import core
 
 DRIVER = "drv_spaceinterp"
+LEAN_TARGETS = ["OmplModel.Props.C07", DRIVER]
 HARNESS = ("spaceinterp", ["spaceinterp.cpp"])
 PI = math.pi
 EPS_D = 2.0 ** -52
@@ -27,6 +28,10 @@ REL = 1e-12
 fb = core.f2bits
 bf = core.bits2f
 WEIGHTS = [0.5, 1.0, 2.0, 1e-3, 1e3]
+# zero-weight subspaces are legitimate (LTLSpaceInformation builds them) and interpolate must not depend on
+# the weight at all: 0, a weight below DBL_EPSILON (what getMaximumExtent/getMeasure treat as zero), 1e-300
+# and the smallest denormal are drawn at every nesting level
+TINY_WEIGHTS = [0.0, 0.0, 1e-17, 1e-300, 5e-324]
 SPECIAL = ("torus", "mobius", "klein", "sphere")
 
 
@@ -148,6 +153,27 @@ def leaves(sp, owner=None, w=1.0, out=None):
         out.append({"kind": "rv", "n": 1, "lo": [0.0], "hi": [PI], "owner": owner or "sphere", "w": w})
     elif k == "wrap":
         leaves(sp[1], owner, w, out)
+    return out
+
+
+def units(sp, out=None):
+    """unit components in state order, as harness/spaceinterp.cpp's forUnits: wrappers and plain compounds
+    (incl. SE2/SE3) are descended into; (kind, number of leaves() entries)"""
+    out = [] if out is None else out
+    k = sp[0]
+    if k == "cmp":
+        for _, s_ in sp[1]:
+            units(s_, out)
+    elif k == "wrap":
+        units(sp[1], out)
+    elif k == "se2":
+        out += [("rv", 1), ("so2", 1)]
+    elif k == "se3":
+        out += [("rv", 1), ("so3", 1)]
+    elif k in SPECIAL:
+        out.append((k, 2))
+    else:
+        out.append((k, 1))
     return out
 
 
@@ -424,7 +450,7 @@ def rand_compound(r, d):
             s = rand_compound(r, d + 1)
         else:
             s = leaf_space(r)
-        cs.append((r.choice(WEIGHTS), s))
+        cs.append((r.choice(TINY_WEIGHTS) if r.chance(1, 4) else r.choice(WEIGHTS), s))
     sp = ("cmp", cs)
     return ("wrap", sp) if r.chance(1, 10) else sp
 
@@ -451,6 +477,14 @@ def shipped_spaces():
         ("cmp", [(1.0, ("so2",)), (2.0, ("so2",))]),
         ("cmp", [(1.0, ("rv", [0.0], [1.0])), (0.5, ("disc", 0, 4)), (1.0, ("so2",))]),
         ("cmp", []),
+        # zero / vanishing weights at every nesting level, over every plain leaf kind
+        ("cmp", [(0.0, ("so2",)), (1.0, ("rv", [-1.0], [1.0]))]),
+        ("cmp", [(1.0, ("rv", [0.0, -2.0], [1.0, 2.0])), (0.0, ("so3",)), (0.0, ("disc", -2, 5)), (0.0, ("time", (0.0, 4.0))),
+                 (0.0, ("time", None)), (0.0, ("rv", [-3.0], [5.0]))]),
+        ("cmp", [(0.0, ("so2",)), (0.0, ("rv", [0.0], [1.0]))]),
+        ("cmp", [(1.0, ("cmp", [(0.0, ("cmp", [(1.0, ("so2",)), (0.0, ("so3",))])), (2.0, ("time", (0.0, 1.0)))])),
+                 (5e-324, ("rv", [-1.0, -1.0], [1.0, 1.0])), (1e-300, ("so2",))]),
+        ("wrap", ("cmp", [(0.0, ("se2", [-1.0, -1.0], [1.0, 1.0])), (1e-17, ("torus", 2.0, 0.5)), (0.0, ("mobius", 1.0, 1.0))])),
     ]
 
 
@@ -536,6 +570,19 @@ def leaf_close(lf, x, y):
     return all(abs(p - q) <= EPS_F * max(1.0, abs(p), abs(q)) for p, q in zip(x, y))
 
 
+def has_sentinel(lf, v):
+    """the harness fills a distinct output with 7.77e77 (R^n, time) / 77 (SO2) / (7,7,7,7) (SO3) / upper+1000
+    (discrete) before the call: a leaf that still holds it was never written by interpolate"""
+    k = lf["kind"]
+    if k == "so2":
+        return v[0] == 77.0
+    if k == "so3":
+        return v == [7.0] * 4
+    if k == "disc":
+        return v[0] == lf["hi"][0] + 1000
+    return any(x == 7.77e77 for x in v)
+
+
 def ulp_out(lf, v):
     """how far an R^n / time leaf value lies outside its bounds, in ulps of the largest operand
     magnitude the box allows (from + (to - from) * t is off by up to an ulp of |from| or |to - from|)"""
@@ -614,6 +661,10 @@ def oracle_line(sp, line, out):
                         cls = "seam-branch v == +pi: mirror(v) = pi - v rounds to +pi for 0 < v < ulp(pi)/2 (rounding)"
             if lv[i]["kind"] in ("rv", "time") and lv[i]["lo"] is not None and ulp_out(lv[i], v) <= 4.0:
                 cls = "rounding: <= 4 ulp(max |bound|) outside the box (satisfiesBounds has only an absolute DBL_EPSILON slack)"
+        for lf, x in zip(lv, split_state(lv, rt)):
+            if has_sentinel(lf, vals(lf, x)):
+                own, cls = lf["owner"], "component of the output never written (the harness's sentinel is still there)"
+                break
         return {"clause": "bounds", "culprit": own, "class": cls, "what": what}
 
     def nan_in(rt):
@@ -634,24 +685,31 @@ def oracle_line(sp, line, out):
             own, _ = attribute(f["a1"] if f["a1"] != r else f["a2"], lambda lf, v, i: tok(lf, v) == split_state(lv, r)[i])
             fails.append({"clause": "alias", "culprit": own, "class": which,
                           "what": "interpolate with %s differs from the run with a distinct output state" % which})
-        if f["sb"] != ["1"]:
-            fails.append(bounds_record(r, "interpolate(from,to,t) at t=%r does not satisfy the space's bounds" % t, a))
+        un = units(sp)
+        csb = f.get("csb", [])
+        if f["sb"] != ["1"] or "0" in csb:
+            rec = bounds_record(r, "interpolate(from,to,t) at t=%r does not satisfy the space's bounds" % t, a)
+            if rec["culprit"] == "unknown" and "0" in csb:
+                rec["culprit"] = un[csb.index("0")][0]
+            fails.append(rec)
         dfr, dft, drt = f["dfr"][0], f["dft"][0], f["drt"][0]
+        # end points, judged per unit component with the component's OWN equalStates / distance (a compound's
+        # weighted distance cannot see a component whose weight is 0 or tiny); a component that is itself out
+        # of bounds is already reported above
+        for ui, (uk, _n) in enumerate(un):
+            if ui >= len(csb) or csb[ui] != "1":
+                continue
+            cslack = EPS_F * max(1.0, bf(f["cext"][ui]) if math.isfinite(bf(f["cext"][ui])) else 1.0)
+            for tv, flag, dk, clause, name in ((0.0, "cef", "cdfr", "endpoint0", "from"), (1.0, "cet", "cdrt", "endpoint1", "to")):
+                if t == tv and f[flag][ui] != "1" and not (f[dk][ui] != "-" and bf(f[dk][ui]) <= cslack):
+                    fails.append({"clause": clause, "culprit": uk, "class": "t=%d" % tv,
+                                  "what": "component %d (%s) of interpolate(from,to,%d) is not that of %s (its equalStates is false, its distance %s)"
+                                          % (ui, uk, tv, name, f[dk][ui] if f[dk][ui] == "-" else bf(f[dk][ui]))})
         if f["sb"] != ["1"] and f.get("enf") == ["1"]:
             # the result is out of bounds (reported above); its distances were taken after enforceBounds on a
-            # copy (+pi -> -pi, which e.g. lands on the mirrored twin in a Mobius strip), so the distance-based
-            # clauses would only restate that failure
+            # copy (+pi -> -pi, which e.g. lands on the mirrored twin in a Mobius strip), so the whole-space
+            # distance clause below would only restate that failure
             return fails
-        rl = [vals(lf, x) for lf, x in zip(lv, split_state(lv, r))]
-        # (`-` only if enforceBounds itself fails to bring a state into bounds; then judge leaf by leaf)
-        close0 = dfr == "-" and all(leaf_close(lf, x, y) for lf, x, y in zip(lv, rl, a))
-        close1 = drt == "-" and all(leaf_close(lf, x, y) for lf, x, y in zip(lv, rl, b))
-        if t == 0.0 and f["ef"] != ["1"] and not close0 and not (dfr != "-" and bf(dfr) <= slack):
-            own, _ = attribute(r, lambda lf, v, i: leaf_close(lf, v, a[i]))
-            fails.append({"clause": "endpoint0", "culprit": own, "class": "t=0", "what": "interpolate(from,to,0) is not from (equalStates false, distance %s)" % (dfr if dfr == "-" else bf(dfr))})
-        if t == 1.0 and f["et"] != ["1"] and not close1 and not (drt != "-" and bf(drt) <= slack):
-            own, _ = attribute(r, lambda lf, v, i: leaf_close(lf, v, b[i]))
-            fails.append({"clause": "endpoint1", "culprit": own, "class": "t=1", "what": "interpolate(from,to,1) is not to (equalStates false, distance %s)" % (drt if drt == "-" else bf(drt))})
         if is_geodesic(sp) and dfr != "-" and dft != "-":
             dev = abs(bf(dfr) - t * bf(dft))
             if not dev <= slack:
@@ -677,22 +735,30 @@ def oracle_line(sp, line, out):
         oob = any(f[flag] != ["1"] for flag in ("sbs3", "sbr", "sbd"))
         if is_continuous(sp) and f["d"][0] != "-" and not (oob and f.get("enf") == ["1"]):
             d = bf(f["d"][0])
-            if not d <= slack:
-                rs, ds = split_state(lv, f["r"]), split_state(lv, f["direct"])
-                owners = sorted(set(lf["owner"] for lf, x, y in zip(lv, rs, ds) if not leaf_close(lf, vals(lf, x), vals(lf, y))))
+            un = units(sp)
+            bad_units = []
+            for ui, (uk, _n) in enumerate(un):
+                cd = f["cd"][ui]
+                ce = bf(f["cext"][ui])
+                if cd != "-" and not bf(cd) <= EPS_F * max(1.0, ce if math.isfinite(ce) else 1.0):
+                    bad_units.append((uk, bf(cd)))
+            if bad_units or not d <= slack:
+                owners = sorted(set(k for k, _ in bad_units))
                 cls = "distance beyond slack"
                 if owners == ["klein"]:
                     # Klein seam branch: before the crossing the v-arc is chosen between from.v and mirror(to.v),
                     # after it between mirror(from.v) and to.v; when those are half a turn apart (|diffV| = pi up
-                    # to rounding) the two choices can be opposite arcs and v jumps at the crossing (F-C07-c)
+                    # to rounding) the two choices can be opposite arcs and v jumps at the crossing (F62)
                     for i, lf in enumerate(lv):
                         if lf["owner"] == "klein" and lf.get("role") == "u" and abs(b[i][0] - a[i][0]) > 0.5 * PI:
                             v1, v2 = a[i + 1][0], b[i + 1][0]
                             m2 = (PI - v2) if v2 > 0 else (-PI - v2)
                             if abs(abs(m2 - v1) - PI) <= 1e-6:
                                 cls = "klein seam branch, mirror(to.v) half a turn from from.v (tie between the two arcs)"
+                worst = max([x for _, x in bad_units] + [d])
                 fails.append({"clause": "reparam", "culprit": "+".join(owners) or sp[0], "class": cls,
-                              "what": "interpolate(interpolate(a,b,s),b,u) is %.6g away from interpolate(a,b,s+(1-s)u) (s=%r,u=%r)" % (d, s, u)})
+                              "what": "interpolate(interpolate(a,b,s),b,u) is %.6g away from interpolate(a,b,s+(1-s)u) (s=%r,u=%r; judged per "
+                                      "component with its own distance)" % (worst, s, u)})
     return fails
 
 
@@ -839,8 +905,8 @@ def run(ck):
         ck.log("extract/rwsets.py: %s" % ("ok" if r.returncode == 0 else "FAILED " + (r.stdout + r.stderr)[-300:]))
         if r.returncode != 0:
             ck.failed_obligations.append(("rwsets-translator", (r.stdout + r.stderr)[-400:]))
-    ck.lean_build(["OmplModel.Props.C07", DRIVER])
-    ck.audit()
+    ck.lean_build(LEAN_TARGETS)
+    ck.audit(roots=["Drv.SpaceInterp"])
     if ck.tier == "thorough" and ck.lean_ok:
         ck.leanchecker(["OmplModel.Props.C07"])
     hbin = ck.build_harness(HARNESS[0], HARNESS[1], link_ompl=True)
